@@ -39,8 +39,11 @@ struct helem {
  * max-heap or a min-heap over the same priorities); the pointer belongs to the heap OBJECT and moves with it on swap */
 struct hord { int dir; };
 static struct hord hords[2];
-struct mheap { int n; struct helem *e[MAXN]; int since_clear; struct hord *ord; };
-#define EFF(h, e) (mh[h].ord->dir * (e)->prio)
+struct mheap { int n; struct helem *e[MAXN]; int since_clear; struct hord *ord; int fsign; };
+/* ... and a comparison function of its own: one of two different functions that order the opposite way. Function and private
+ * pointer both belong to the heap object and both move with swap. */
+#define DIR(h) (mh[h].ord->dir * mh[h].fsign)
+#define EFF(h, e) (DIR(h) * (e)->prio)
 
 static struct cstl_heap hp[2];
 static struct mheap mh[2];
@@ -80,6 +83,7 @@ static int cmp_prio(const void *a, const void *b, void *p)
     int d = o ? o->dir : 1;
     return sim_cmp(d * ((x->prio > y->prio) - (x->prio < y->prio)));
 }
+static int cmp_prio_rev(const void *a, const void *b, void *p) { return cmp_prio(b, a, p); }
 
 static int hkind[2], cur_h;     /* node member each heap is declared over; heap being audited */
 static size_t hoff(int kind) { return kind ? offsetof(struct helem, hn2) : offsetof(struct helem, hn); }
@@ -134,7 +138,7 @@ static void audit_heap(int h)
         for (i = 1; i < m->n; i++) if (EFF(h, m->e[i]) > mx) mx = EFF(h, m->e[i]);
         for (i = 0; i < m->n; i++) if (m->e[i] == ge) break;
         if (i == m->n) VIOL(h, "get_foreign", "heap %d: get returned a pointer that is not a held element", h);
-        if (EFF(h, ge) != mx) VIOL(h, "get_max", "heap %d: get returned priority %d, the %s is %d", h, ge->prio, m->ord->dir > 0 ? "maximum" : "minimum (this heap orders the other way round)", mx * m->ord->dir);
+        if (EFF(h, ge) != mx) VIOL(h, "get_max", "heap %d: get returned priority %d, the %s is %d", h, ge->prio, DIR(h) > 0 ? "maximum" : "minimum (this heap orders the other way round)", mx * DIR(h));
     }
     sh = fnv1a(sh, (uint64_t)m->n);
     if (m->n <= 16) {
@@ -235,6 +239,42 @@ static void huge_heap(uint64_t nsel, uint64_t seed)
     if (n > maxreach) maxreach = (unsigned)n;
 }
 
+/* ... and about what a function returns: the pointer that pop / get hand back IS the caller's element, an object the caller can
+ * also name directly (an attribute such as malloc or alloc_size on the prototype says otherwise). A file-scope element goes in as
+ * the top, comes back, is written through the returned pointer and read through its own name. */
+static struct helem pl_top;
+/* (one function per library call: a returned pointer that may come from either of two calls hides what is claimed about one) */
+static __attribute__((noinline)) int pop_alias_plain(struct cstl_heap *hp_, size_t hnd)
+{
+    struct helem *got; void *r; int before, after;
+    pl_top.mark = 1;
+    g_inlib = 1;
+    cstl_heap_push(hp_, (char *)&pl_top + hnd);
+    r = cstl_heap_pop(hp_);
+    g_inlib = 0;
+    if (r == NULL) return -1;
+    got = (struct helem *)((char *)r - hnd);
+    before = pl_top.mark;               /* read, write through the returned pointer, read again: */
+    got->mark = before + 1;             /* an optimiser told that the two cannot alias re-uses the first read */
+    after = pl_top.mark;
+    return after;
+}
+static __attribute__((noinline)) int get_alias_plain(struct cstl_heap *hp_, size_t hnd)
+{
+    struct helem *got; const void *r; int before, after;
+    pl_top.mark = 1;
+    g_inlib = 1;
+    cstl_heap_push(hp_, (char *)&pl_top + hnd);
+    r = cstl_heap_get(hp_);
+    if (r == NULL) { g_inlib = 0; return -1; }
+    got = (struct helem *)((char *)(uintptr_t)r - hnd);
+    before = pl_top.mark;
+    got->mark = before + 1;
+    after = pl_top.mark;
+    (void)cstl_heap_pop(hp_);
+    g_inlib = 0;
+    return after;
+}
 static int push_plain(struct cstl_heap *hp_, void *e) { pl_calls = 0; g_inlib = 1; cstl_heap_push(hp_, e); g_inlib = 0; return pl_calls; }
 
 static void h_exec(const plan_t *p)
@@ -260,13 +300,15 @@ static void h_exec(const plan_t *p)
         hkind[i] = (int)(p->cfg[CF_CLEARFREES] >> (4 + i) & 1);
         hords[i].dir = (p->cfg[CF_CLEARFREES] >> (8 + i) & 1) ? -1 : 1;
         mh[i].ord = &hords[i];
+        mh[i].fsign = (p->cfg[CF_CLEARFREES] >> (16 + i) & 1) ? -1 : 1;
+        if (mh[i].fsign < 0) PROBE("heap_with_the_other_comparison_function");
         if (p->cfg[CF_DECL] && g_hnd == 0) {
             /* the documented other way to get an empty heap: the initializer macros, with expressions as arguments */
-            if (hkind[i]) { DECLARE_CSTL_HEAP(t, struct helem, hn2, i ? cmp_prio : &cmp_prio, hords + i); hp[i] = t; }
-            else hp[i] = (struct cstl_heap)CSTL_HEAP_INITIALIZER(struct helem, hn, i ? &cmp_prio : cmp_prio, hords + i);
+            if (hkind[i]) { DECLARE_CSTL_HEAP(t, struct helem, hn2, mh[i].fsign > 0 ? cmp_prio : &cmp_prio_rev, hords + i); hp[i] = t; }
+            else hp[i] = (struct cstl_heap)CSTL_HEAP_INITIALIZER(struct helem, hn, mh[i].fsign < 0 ? &cmp_prio_rev : cmp_prio, hords + i);
             PROBE("from_initializer_macro");
         } else
-        cstl_heap_init(&hp[i], cmp_prio, &hords[i], hoff(hkind[i]) - g_hnd);
+        cstl_heap_init(&hp[i], mh[i].fsign > 0 ? cmp_prio : cmp_prio_rev, &hords[i], hoff(hkind[i]) - g_hnd);
         mh[i].n = 0; mh[i].since_clear = -1;
     }
 
@@ -282,7 +324,7 @@ static void h_exec(const plan_t *p)
             huge_heap(o->a[1], o->a[2]);
             hkind[0] = (int)(p->cfg[CF_CLEARFREES] >> 4 & 1);
             cmp_plainheap = 0;
-            cstl_heap_init(&hp[0], cmp_prio, mh[0].ord, hoff(hkind[0]) - g_hnd);
+            cstl_heap_init(&hp[0], mh[0].fsign > 0 ? cmp_prio : cmp_prio_rev, mh[0].ord, hoff(hkind[0]) - g_hnd);
             continue;
         }
 
@@ -290,7 +332,7 @@ static void h_exec(const plan_t *p)
             /* the n-th repetition: a transient element that beats every other is pushed and popped 254 ... 65 536 times */
             static const unsigned reps[] = { 254, 255, 256, 65534, 65535, 65536 };
             static struct helem tr; unsigned n = reps[o->a[2] % 6], q; void *got = NULL;
-            tr.magic = MAGIC; tr.tail = ~MAGIC; tr.id = -7; tr.prio = m->ord->dir > 0 ? 1 << 20 : -(1 << 20);
+            tr.magic = MAGIC; tr.tail = ~MAGIC; tr.id = -7; tr.prio = DIR(h) > 0 ? 1 << 20 : -(1 << 20);
             g_cur_ctx = n > 60000 ? "churn-2^16" : "churn-2^8";
             g_inlib = 1;
             for (q = 0; q < n; q++) { cstl_heap_push(&hp[h], HND(&tr)); got = cstl_heap_pop(&hp[h]); if (got != HND(&tr)) break; }
@@ -338,7 +380,7 @@ static void h_exec(const plan_t *p)
                 if (ret == NULL) VIOL(h, "pop_null", "pop returned NULL on a heap of %d", m->n);
                 if (i == m->n) VIOL(h, "pop_foreign", "pop returned a pointer that is not a held element");
                 e = m->e[i];
-                if (EFF(h, e) != mx) VIOL(h, "pop_max", "pop returned priority %d, the %s is %d", e->prio, m->ord->dir > 0 ? "maximum" : "minimum (this heap orders the other way round)", mx * m->ord->dir);
+                if (EFF(h, e) != mx) VIOL(h, "pop_max", "pop returned priority %d, the %s is %d", e->prio, DIR(h) > 0 ? "maximum" : "minimum (this heap orders the other way round)", mx * DIR(h));
                 if ((m->n & (m->n - 1)) == 0) PROBE("pop_from_2^k");
                 m->e[i] = m->e[--m->n];
                 EVT("pop", h, e->id, e->prio);
@@ -352,6 +394,13 @@ static void h_exec(const plan_t *p)
             }
             break;
         case H_GET:
+            if (k % 2 == 1 && m->n + 1 < MAXN) {
+                int seen;
+                pl_top.magic = MAGIC; pl_top.tail = ~MAGIC; pl_top.id = -8; pl_top.heap = h; pl_top.prio = DIR(h) > 0 ? 1 << 21 : -(1 << 21);
+                seen = (k / 2 % 2) ? get_alias_plain(&hp[h], g_hnd) : pop_alias_plain(&hp[h], g_hnd);
+                if (seen != 2) VIOL(h, "returned_pointer_is_not_the_element", "a value written through the pointer that %s returned is not seen through the element's own name in an optimised caller (%d)", (k / 2 % 2) ? "get" : "pop", seen);
+                PROBE("returned_pointer_written_through");
+            }
             EVT("get", h, 0, 0);       /* checked in the audit */
             break;
         case H_CLEAR: {
@@ -390,7 +439,8 @@ static void h_exec(const plan_t *p)
             if (nh < 2) { EVT("skip", 0, 0, 0); break; }
             TRY(cstl_heap_swap(&hp[h], &hp[u]));
             if (g_aborted) VIOL(h, "abort", "swap aborted");
-            { struct hord *to = m->ord; m->ord = mh[u].ord; mh[u].ord = to; if (m->ord->dir != mh[u].ord->dir) PROBE("swap_heaps_that_order_differently"); }
+            { struct hord *to = m->ord; int fs = m->fsign; m->ord = mh[u].ord; mh[u].ord = to; m->fsign = mh[u].fsign; mh[u].fsign = fs;
+              if (m->ord->dir != mh[u].ord->dir) PROBE("swap_heaps_that_order_differently"); if (m->fsign != mh[u].fsign) PROBE("swap_heaps_with_different_comparison_functions"); }
             memcpy(tmp, m->e, sizeof(m->e[0]) * (size_t)m->n); n = m->n; sc = m->since_clear;
             memcpy(m->e, mh[u].e, sizeof(m->e[0]) * (size_t)mh[u].n); m->n = mh[u].n; m->since_clear = mh[u].since_clear;
             memcpy(mh[u].e, tmp, sizeof(m->e[0]) * (size_t)n); mh[u].n = n; mh[u].since_clear = sc;
@@ -438,6 +488,7 @@ static void h_gen(prng_t *r, int mode, plan_t *p)
     p->cfg[CF_JUNK] = 1 + prng_below(r, 254);
     p->cfg[CF_MAXN] = longrun ? 200 + prng_below(r, 850) : small ? 2 + prng_below(r, 6) : 4 + prng_below(r, 60);
     p->cfg[CF_CLEARFREES] = (mode == 15 ? 1 : prng_below(r, 2)) | (prng_chance(r, 1, 3) ? prng_below(r, 4) << 4 : 0) | (prng_chance(r, 1, 2) ? prng_below(r, 4) << 8 : 0) | (prng_chance(r, 1, 3) ? prng_below(r, 8) << 12 : 0);
+    p->cfg[CF_CLEARFREES] |= (uint64_t)((g_gen_index / 3) & 3) << 16;      /* which of the two comparison functions each heap gets */
     for (i = 0; i < nops; i++) {
         unsigned x = (unsigned)prng_below(r, 100 + w_clear);
         int kind = x < push_w ? H_PUSH : x < 90 ? H_POP : x < 94 ? H_GET : x < 100 ? H_SWAP : H_CLEAR;
